@@ -70,6 +70,8 @@ CLASSES = {
 }
 
 Y0 = 1990
+TS_MAX = int((datetime.datetime(9999, 12, 28) -
+              datetime.datetime(1970, 1, 1)).total_seconds())
 
 
 def TARGET_FILES(cls):
@@ -544,7 +546,9 @@ class ZoneUnderTest(object):
         ts = (a if which == "start" else b) + delta
         if yo < 0:
             ts = self.first_any - 86400 * 200 * (-yo)
-        return ts
+        # three days inside the representable range, so that every wall
+        # reading of the instant exists (zones questioned in 9990-9999)
+        return min(ts, TS_MAX)
 
     def judged_instant(self, q):
         """The instant whose rules decide the answer to q: for the imaginary
